@@ -68,9 +68,28 @@ def run_case(case):
         src = os.path.join(root, 'src')
         os.makedirs(src)
         tree = sorted(case['tree'], key=lambda e: len(e['path']))
+        # every second leaf directory of the tree is a symbolic link to a
+        # populated directory outside the source tree: find_files lists it as
+        # a directory and does not descend into it, so for the model it is an
+        # empty directory
+        outside = os.path.join(root, 'outside')
+        os.makedirs(os.path.join(outside, 'sub'))
+        for n in ('in.c', 'a', 'b.c', 'a.h', 'sub/x.c'):
+            open(os.path.join(outside, n), 'w').close()
+        def key(path):
+            return tuple(tuple(n) if isinstance(n, list) else n for n in path)
+        allp = [key(e['path']) for e in tree]
+        leafdirs = sorted(key(e['path']) for e in tree if e['dir'] and
+                          e['path'] and not any(
+                              q[:len(e['path'])] == key(e['path']) and
+                              len(q) > len(e['path']) for q in allp))
+        links = set(leafdirs[::2])
         for e in tree:
             p = os.path.join(src, *[unsyms(n) for n in e['path']])
-            if e['dir']:
+            if e['dir'] and key(e['path']) in links:
+                os.makedirs(os.path.dirname(p), exist_ok=True)
+                os.symlink(outside, p)
+            elif e['dir']:
                 os.makedirs(p, exist_ok=True)
             else:
                 os.makedirs(os.path.dirname(p), exist_ok=True)
@@ -186,7 +205,8 @@ def main(argv):
     nontriv = sum(1 for ev in res if ev['found'])
     ck.assumptions += [
         'names from a fixed list incl. dotted, hidden, backup, blank and '
-        'glob-metacharacter names; symlinked directories not generated',
+        'glob-metacharacter names; every second leaf directory is a symbolic '
+        'link to a populated directory outside the tree (listed, not descended)',
         'exclude globs are applied to entries strictly below a pattern\'s '
         'literal base directory (the base is named by the caller); whether '
         'the search root itself, whose relative name is empty, is hit by a '
